@@ -17,7 +17,7 @@ echo "--- demo with the change:"
 (cd /tmp && PYTHONPATH="$d" timeout 600 /venv/bin/python "$dir/demo.py" >/dev/null 2>&1; echo "    exit=$?")
 cd "$(dirname "$0")/.." || exit 2
 for p in "$@"; do
-  out=$(DD_REPO="$d" ./check $p --tier $tier 2>/dev/null); c=$?
+  out=$(DD_REPO="$d" VERIF_EVIDENCE_DIR="$d/.evidence" ./check $p --tier $tier 2>/dev/null); c=$?
   echo "--- $p ($tier) exit=$c"
   echo "$out" | grep -E "what:|^$p " | cut -c1-230 | sort | uniq -c | sort -rn | head -4
 done
